@@ -70,27 +70,29 @@ fn oracle(c: &Case, acc: &mut Acc) -> CaseResult {
     let oneway = spec.pattern().is_oneway();
     // real endpoints (unwrapped backends) and the reference handshake side by side
     let mut pair = build_pair(&spec, None)?;
-    let mut mi = build_ref(&spec, true, &EpOverrides::default()).map_err(|x| Fail::new(format!("{x:?}")))?;
-    let mut mr = build_ref(&spec, false, &EpOverrides::default()).map_err(|x| Fail::new(format!("{x:?}")))?;
+    let mut mi = build_ref(&spec, true, &EpOverrides::default()).map_err(|x| Fail::setup(format!("{x:?}")))?;
+    let mut mr = build_ref(&spec, false, &EpOverrides::default()).map_err(|x| Fail::setup(format!("{x:?}")))?;
     for k in 0..spec.n_msgs() {
         let i_sends = k % 2 == 0;
         let (w, r, mw, mrd) = if i_sends { (&mut pair.i, &mut pair.r, &mut mi, &mut mr) } else { (&mut pair.r, &mut pair.i, &mut mr, &mut mi) };
-        let m = hs_write(w, b"", 65535).map_err(|x| Fail::new(e(&x)))?;
-        hs_read(r, &m, 65535).map_err(|x| Fail::new(e(&x)))?;
-        let o = mw.write(Some(spec.e_priv(i_sends)), b"").map_err(|x| Fail::new(format!("{x:?}")))?;
-        ensure!(o.msg == m, "{name}: handshake message {k} differs from the reference (C01's business); cannot anchor keys");
-        mrd.read(&m).map_err(|x| Fail::new(format!("{x:?}")))?;
+        let m = hs_write(w, b"", 65535).map_err(|x| Fail::setup(e(&x)))?;
+        hs_read(r, &m, 65535).map_err(|x| Fail::setup(e(&x)))?;
+        let o = mw.write(Some(spec.e_priv(i_sends)), b"").map_err(|x| Fail::setup(format!("{x:?}")))?;
+        if o.msg != m {
+            return Err(Fail::setup(format!("{name}: handshake message {k} differs from the reference (C01's business); cannot anchor keys")));
+        }
+        mrd.read(&m).map_err(|x| Fail::setup(format!("{x:?}")))?;
     }
     let rt = RefTransport::from_hs(&mi);
     // model keys: key[side][dir], side 0 = initiator, dir 0 = i->r
     let mut key = [[rt.k_i2r, rt.k_r2i], [rt.k_i2r, rt.k_r2i]];
     let mut ts = if c.stateless {
         [
-            T::L(pair.i.into_stateless_transport_mode().map_err(|x| Fail::new(e(&x)))?),
-            T::L(pair.r.into_stateless_transport_mode().map_err(|x| Fail::new(e(&x)))?),
+            T::L(pair.i.into_stateless_transport_mode().map_err(|x| Fail::setup(e(&x)))?),
+            T::L(pair.r.into_stateless_transport_mode().map_err(|x| Fail::setup(e(&x)))?),
         ]
     } else {
-        [T::F(pair.i.into_transport_mode().map_err(|x| Fail::new(e(&x)))?), T::F(pair.r.into_transport_mode().map_err(|x| Fail::new(e(&x)))?)]
+        [T::F(pair.i.into_transport_mode().map_err(|x| Fail::setup(e(&x)))?), T::F(pair.r.into_transport_mode().map_err(|x| Fail::setup(e(&x)))?)]
     };
     let pool = [expand32(c.seed, 900), expand32(c.seed, 901), expand32(c.seed, 902)];
     let mut sn = [0u64; 2]; // per direction
